@@ -29,9 +29,16 @@ impl Binder {
             SetExpr::Values(values) => self.bind_values(values)?,
             body => return Err(ErrorKind::Todo("unknown set expr".into()).with_spanned(&body)),
         };
-        let limit = match query.limit {
-            Some(expr) => self.bind_expr(expr)?,
-            None => self.egraph.add(Node::null()),
+        // `FETCH FIRST n ROWS ONLY` is the standard spelling of `LIMIT n`
+        let limit = match (query.limit, query.fetch) {
+            (Some(expr), None) => self.bind_expr(expr)?,
+            (None, None) => self.egraph.add(Node::null()),
+            (None, Some(fetch)) if !fetch.with_ties && !fetch.percent => match fetch.quantity {
+                Some(expr) => self.bind_expr(expr)?,
+                None => self.egraph.add(Node::Constant(DataValue::Int32(1))),
+            },
+            (None, Some(_)) => return Err(ErrorKind::Todo("FETCH .. WITH TIES / PERCENT".into()).into()),
+            (Some(_), Some(_)) => return Err(ErrorKind::Todo("LIMIT together with FETCH".into()).into()),
         };
         let offset = match query.offset {
             Some(offset) => self.bind_expr(offset.value)?,
